@@ -13,6 +13,12 @@ Theorem C05_stream_identity : forall x s, script_ok s -> in_domain x (stream_of 
 Proof. exact stream_identity. Qed.
 Print Assumptions C05_stream_identity.
 
+(* the same on the full domain of the property text (unterminated rest of up to exactly 128 KiB) *)
+Theorem C05_stream_identity_wide : forall x s, script_ok s -> in_domain_wide x (stream_of s) ->
+  exists texts, snd (run_stream x s) = with_labels x texts /\ concat (map snd texts) = stream_of s.
+Proof. exact stream_identity_wide. Qed.
+Print Assumptions C05_stream_identity_wide.
+
 (* non-vacuity: a stream cut in the middle of a line, EAGAIN in between, unterminated rest *)
 Example C05_nonvacuous :
   let x := mkoctx true false [110;49;46;100] true in
